@@ -38,13 +38,13 @@ def day_shapes(tier):
     out += [{"doy": d} for d in doys]
     out += [{"wd": d} for d in range(1, 8)]
     weeks = range(1, 54) if tier != "quick" else (1, 2, 26, 51, 52, 53)
-    wds = range(1, 8) if tier != "quick" else (1, 4, 7)
+    wds = (1, 4, 7)
     out += [{"week": w, "wd": d} for w in weeks for d in wds]
     return out
 
 
 T_ZONES_QUICK = [None, [0, 0], [-5, -30]]   # an explicit +00:00 is a *known* zone, distinct from unknown
-T_ZONES = [None, [1, 0], [-5, -30], [0, 0], [14, 0]]
+T_ZONES = [None, [0, 0], [-5, -30], [14, 0]]
 
 
 def t_kwargs(t):
@@ -171,9 +171,9 @@ def p_pool(kind, which, tier):
         years, times, reps, offs = [2001], P_TIMES, ["cal"], [[0, 0], [5, 45]]
         days = lambda y: (1, 59, c.year_len(y))  # noqa: E731
     else:
-        years = [2001, 2004] if (tier == "quick" and kind == "greg") else ([2001] if tier == "quick" else [2000, 2001, 2004, 2099])
-        times = P_TIMES[:2] + P_TIMES[4:5] + P_TIMES[7:] if tier == "quick" else P_TIMES
-        reps, offs = pools.REPS, [[-12, 0]] if tier == "quick" else [[0, 0], [-12, 0], [5, 45]]
+        years = [2001, 2004] if (tier == "quick" and kind == "greg") else ([2001] if tier == "quick" else [2001, 2004, 2099])
+        times = P_TIMES[:2] + P_TIMES[4:5] + P_TIMES[7:] if tier == "quick" else P_TIMES[:3] + P_TIMES[4:5] + P_TIMES[7:]
+        reps, offs = pools.REPS, [[-12, 0]] if tier == "quick" else [[-12, 0], [5, 45]]
         days = lambda y: pools.days_small(c, y)  # noqa: E731
     out = []
     for y in years:
@@ -336,7 +336,7 @@ def run_unit(unit, ctx):
         ps = p_pool(kind, "full", ctx.tier)
         for dy in day_shapes(ctx.tier)[unit[2]:unit[3]]:
             for tm in DAY_TIME_SHAPES:
-                for z in (tzs[:2] if ctx.tier == "quick" else tzs):
+                for z in (tzs[:2] if ctx.tier == "quick" else tzs[:3]):
                     if z is not None and not tm:
                         continue  # a zone can only accompany a time
                     t = {"time": tm, "day": dy, "tz": z}
